@@ -66,6 +66,9 @@ func buildRecCases(prop, tier string) ([]*e1Case, string) {
 		if t.has("anon") && prop != "C02" && prop != "C04" {
 			return // anonymous struct fields: Equal and Hash only
 		}
+		if t.has("alias") && prop != "C05" {
+			return // alias of an unexported struct: DeepCopy/Clone and GoString only
+		}
 		n++
 		cases = append(cases, &e1Case{ID: fmt.Sprintf("c%d", n), Ty: t, Roles: rolesFor(prop, t)})
 	}
